@@ -398,6 +398,11 @@ def r8_transfer_wiring(ctx):
             good = bd is not None and astx.u(bd) == f"ballots_by_first_cand({f.params[1]})"
         ctx.check(bool(good), f, c, "transfer(candidate, its tally, its first-place ballots, threshold)", astx.u(c),
                   f"`{astx.u(c)}`: the four arguments must refer to one candidate, prev_state.scores, ballots_by_first_cand(profile) and self.threshold")
+        # ... for every elected candidate: nothing decides whether the call happens (a winner exactly on the threshold has no
+        # surplus under the fractional rule, but SequentialRCV moves the pile on at full weight all the same)
+        lits_c = literals(Normalizer(f.node, inline=False).conj(astx.path_condition(f.node, c, astx.parents(f.node))))
+        ctx.check(not lits_c, f, c, "every elected candidate's pile goes through the transfer function (the call is unconditional)", "",
+                  f"the transfer call is made only under {sorted(lits_c)}: an elected candidate's ballots can be dropped without being transferred")
         # everybody else's ballots are carried over unchanged
         # (a pile `ballots_by_first_cand(profile)[x]` that does not go through the transfer function reaches the pool as it
         # is: bound to a name / stored, or added with extend / +=, possibly wrapped in tuple() / list())
@@ -546,13 +551,14 @@ RULES = [
     ("C02.R6", r6_elimination, 4, "elimination takes the low end; first_place tiebreak on the initial profile; last of resolution"),
     ("C02.R7", r7_recorded_tallies, 1, "recorded tallies = first_place_votes of the returned profile, ranked high to low"),
     ("C02.R9", r9_round_local, 3, "step decisions use only the round being computed; eliminated/elected candidates are removed by exact name"),
-    ("C02.R8", r8_transfer_wiring, 6, "transfer calls wired to one candidate; one-by-one mode; mode switch"),
+    ("C02.R8", r8_transfer_wiring, 8, "transfer calls wired to one candidate; one-by-one mode; mode switch"),
 ]
 
 # ------------------------------------------------------------------------------------------ self-validation
 STV_PY = "src/votekit/elections/election_types/ranking/stv.py"
 TR_PY = "src/votekit/elections/transfers.py"
 FAULTS = [
+    ("no transfer call for a winner exactly on the threshold", [(STV_PY, "            for candidate in s:\n                transfer_ballots = self.transfer(", "            for candidate in s:\n                if prev_state.scores[candidate] == self.threshold:\n                    continue\n                transfer_ballots = self.transfer(")], "C02.R8"),
     ("droop +1 dropped", [(STV_PY, "return int(total_ballot_wt / (self.m + 1) + 1)", "return int(total_ballot_wt / (self.m + 1))")], "C02.R1"),
     ("droop m for m+1", [(STV_PY, "return int(total_ballot_wt / (self.m + 1) + 1)", "return int(total_ballot_wt / self.m + 1)")], "C02.R1"),
     ("hare ceil-ish", [(STV_PY, "return int(total_ballot_wt / self.m)  # takes floor", "return int(total_ballot_wt / self.m) + 1")], "C02.R1"),
